@@ -237,3 +237,23 @@ pub fn case_unreal2(rd: &mut Rd) -> R<String> {
     let g = g.unwrap_or_default();
     Ok(run_scripted(script, canon_u2, || unreal2::query(&addr(port), &g, ts)))
 }
+
+/// family 41/42/43: gamespy one / two / three; mode 0 = query, 1 = query_vars (one and three)
+pub fn case_gamespy(rd: &mut Rd, ver: u8) -> R<String> {
+    use gamedig::protocols::gamespy;
+    let port = rd.u16()?;
+    let mode = rd.u8()?;
+    let ts = rd_tsettings(rd)?;
+    let script = rd_script(rd)?;
+    let ts = match ts {
+        Ok(t) => t,
+        Err(e) => return Ok(format!("{e}|")),
+    };
+    Ok(match (ver, mode) {
+        (1, 0) => run_scripted(script, |r| canon(r), || gamespy::one::query(&addr(port), ts)),
+        (1, _) => run_scripted(script, |r| canon(r), || gamespy::one::query_vars(&addr(port), ts)),
+        (2, _) => run_scripted(script, |r| canon(r), || gamespy::two::query(&addr(port), ts)),
+        (_, 0) => run_scripted(script, |r| canon(r), || gamespy::three::query(&addr(port), ts)),
+        (..) => run_scripted(script, |r| canon(r), || gamespy::three::query_vars(&addr(port), ts)),
+    })
+}
